@@ -258,8 +258,9 @@ fn run_vpl(ctx: &mut Ctx, sc: &Scenario, rt: &tokio::runtime::Runtime) {
 /// of B^n anyway; `extra` appends events after the completion (second round, non-extending events after a trailing `all`).
 fn gen_scenario(rng: &mut Rng, thorough: bool, hist: &mut Vec<String>) -> Scenario {
     let trail = rng.chance(1, 4);
-    let selfref = if trail { false } else { rng.chance(3, 5) };
-    let nmax = if thorough { 14 } else { 11 };
+    // trailing `all` with a self-referencing filter: evaluated greedily since the C01 repair (ef83be2); kept small
+    let selfref = if trail { rng.chance(1, 3) } else { rng.chance(3, 5) };
+    let nmax = if trail && selfref { 8 } else if thorough { 14 } else { 11 };
     let n = match rng.below(10) { 0 => rng.below(3), 1..=6 => 1 + rng.below(7), _ => 1 + rng.below(nmax) } as usize;
     let pb = if selfref { Some(gen_selfref(rng)) } else if rng.chance(1, 4) { None } else { Some(gen_pred(rng, &[0], 2)) };
     let pa = if rng.chance(1, 5) { Some(gen_pred(rng, &[], 0)) } else { None };
@@ -274,7 +275,7 @@ fn gen_scenario(rng: &mut Rng, thorough: bool, hist: &mut Vec<String>) -> Scenar
     // tail: non-extending / further events
     let tail = match rng.below(4) { 0 => 0, 1 => 1, _ => rng.below(5) };
     for _ in 0..tail { let t = *rng.pick(&[0usize, 1, 1, 2, 3]); evs.push(gen_ev(rng, t)); }
-    hist.push(format!("shape:{}", if trail { "trail" } else if selfref { "mid-selfref" } else { "mid-consistent" }));
+    hist.push(format!("shape:{}", if trail && selfref { "trail-selfref" } else if trail { "trail" } else if selfref { "mid-selfref" } else { "mid-consistent" }));
     hist.push(format!("n:{}", n));
     Scenario { trail, mk, mr, pa, pb, pc, evs }
 }
